@@ -887,13 +887,9 @@ pub fn recheck_typed(case: &Value) -> Vec<String> {
 // C17: print -> parse round trip
 
 const RT_CLASSES: [&str; 6] = ["a.b.Err", "x.Y$Z", "\u{e9}.\u{dc}", "Caused", "Process", "FATAL"];
-const RT_MESSAGES: [Option<&str>; 17] = [
+const RT_MESSAGES: [Option<&str>; 18] = [
     None,
     Some("m"),
-    // messages that end in or consist of colons
-    Some("usage:"),
-    Some("x::"),
-    Some(":"),
     Some("x: y"),
     Some("Caused by: z"),
     Some("at a.b(c:1)"),
@@ -908,6 +904,11 @@ const RT_MESSAGES: [Option<&str>; 17] = [
     Some("open(/proc/self/maps): at a.b.C.run(SourceFile:17)"),
     Some("E/Tag(12): at a.b.C.run(F.java:1)"),
     Some("Exception in thread \"main\" x"),
+    // messages that end in or consist of colons; a message that ends like a frame without being one
+    Some("usage:"),
+    Some("x::"),
+    Some(":"),
+    Some("open failed (errno:2)"),
 ];
 const RT_FCLASSES: [&str; 2] = ["a.b.C", "x.Y$1"];
 const RT_METHODS: [&str; 5] = ["m", "<init>", "\u{e9}", "r: m", "m n"];
@@ -1011,6 +1012,8 @@ pub fn run_c17(tier: Tier) -> i32 {
         let second: Vec<Option<usize>> = if fi.is_some() { std::iter::once(None).chain((0..nf).filter(|k| (t && k % 4 == 0) || k % 7 == 0).map(Some)).collect() } else { vec![None] };
         // cause levels: throwable from a sub-list, 0..1 frames (2 in thorough)
         let cause_thr: Vec<usize> = (0..nthr).filter(|k| (t && k % 3 == 0) || k % 4 == 0).collect();
+        // first cause level: additionally every throwable of the first class, i.e. every message of the list
+        let first_cause_thr: Vec<usize> = (0..nthr).filter(|k| *k < RT_MESSAGES.len() || cause_thr.contains(k)).collect();
         let cause_frames: Vec<Option<usize>> = std::iter::once(None).chain((0..nf).filter(|k| k % (if t { 9 } else { 17 }) == 0).map(Some)).collect();
         for s in &second {
             let mut fr = Vec::new();
@@ -1023,11 +1026,12 @@ pub fn run_c17(tier: Tier) -> i32 {
             let top = OTrace { exception: top_exc.clone(), frames: fr, cause: None };
             check_rt(&top, true, acc);
             // chains
-            fn rec(chain: &mut Vec<OTrace>, left: usize, cause_thr: &[usize], cause_frames: &[Option<usize>], thr: &[(String, Option<String>)], frames: &[(String, String, usize, Option<String>)], acc: &mut Acc, budget: &Budget, only_first: bool) {
+            fn rec(chain: &mut Vec<OTrace>, left: usize, first: &[usize], cause_thr: &[usize], cause_frames: &[Option<usize>], thr: &[(String, Option<String>)], frames: &[(String, String, usize, Option<String>)], acc: &mut Acc, budget: &Budget, only_first: bool) {
                 if left == 0 || budget.exceeded() {
                     return;
                 }
-                for (n, &ct) in cause_thr.iter().enumerate() {
+                let list: &[usize] = if chain.len() == 1 { first } else { cause_thr };
+                for (n, &ct) in list.iter().enumerate() {
                     // deeper levels use a thinner slice so that depth 3/4 stays enumerable
                     if chain.len() >= 2 && n % 4 != 0 {
                         continue;
@@ -1048,7 +1052,10 @@ pub fn run_c17(tier: Tier) -> i32 {
                             t = Some(l);
                         }
                         check_rt(&t.unwrap(), true, acc);
-                        rec(chain, left - 1, cause_thr, cause_frames, thr, frames, acc, budget, only_first);
+                        // the additional first-level throwables are not continued to deeper levels
+                        if chain.len() > 2 || cause_thr.contains(&ct) {
+                            rec(chain, left - 1, first, cause_thr, cause_frames, thr, frames, acc, budget, only_first);
+                        }
                         chain.pop();
                     }
                 }
@@ -1056,7 +1063,7 @@ pub fn run_c17(tier: Tier) -> i32 {
             // only the thin top-level family carries chains (otherwise the product explodes)
             if s.is_none() && fi.map(|f| f % 5 == 0).unwrap_or(true) {
                 let mut chain = vec![top.clone()];
-                rec(&mut chain, max_depth, &cause_thr, &cause_frames, &thr, &frames, acc, budget, false);
+                rec(&mut chain, max_depth, &first_cause_thr, &cause_thr, &cause_frames, &thr, &frames, acc, budget, false);
             }
         }
         // one level with 20 frames; frames without file: text fix-point only
